@@ -31,6 +31,14 @@ MUST_REFUTE = {
     "C05_Gen_Buggy_KeyIgnoresKwargs": "NotSharedArgs",
     "C05_Gen_Buggy_KeyIgnoresType": "NotSharedTypes",
     "C05_Gen_Buggy_NoStore": "NoComputedTwice",
+    # round 2: the hit test compares the cached RESULT with the sentinel by != (the
+    # result's own protocol decides): recomputation / a raise out of the call
+    "C05_Gen_Buggy_HitByNe_Recompute": "NoComputedTwice",
+    "C05_Gen_Buggy_HitByNe_Raise": "Transparent",
+    # round 2: the optimizer reuses a collected definition with the same __name__ for
+    # base-class aliases (the own override captures them)
+    "C05_OptGen_Buggy_CollectByName": "ShippedUsageFine",
+    "C05_OptGen_Buggy_CollectByName_static": "HandlersPreserved",
     "C05_Gen_real_types": "NotSharedTypes",        # Dev_CompositeKeyPyEq (finding F1)
     "C05_OptGen_findings": "PlainlyAccepted",      # the optimizer's named deviations
 }
@@ -150,9 +158,11 @@ def _model_stage(tier, seed, out):
                              ("C05_Gen", "C05_Gen_sim",
                               {"simulate": "num=400", "depth": 8, "seed": seed})]}[tier]
     opt_cfgs = {"quick": [("C05_OptGen", "C05_OptGen_quick1", {}),
-                          ("C05_OptGen", "C05_OptGen_quick2", {})],
+                          ("C05_OptGen", "C05_OptGen_quick2", {}),
+                          ("C05_OptGen", "C05_OptGen_alias_quick", {})],
                 "thorough": [("C05_OptGen", "C05_OptGen_thorough1", {}),
-                             ("C05_OptGen", "C05_OptGen_thorough2", {})]}[tier]
+                             ("C05_OptGen", "C05_OptGen_thorough2", {}),
+                             ("C05_OptGen", "C05_OptGen_alias_thorough", {})]}[tier]
     ctl = ([("C05_Gen", c, {}) for c in MUST_HOLD]
            + [("C05_OptGen" if c.startswith("C05_OptGen") else "C05_Gen", c, {})
               for c in MUST_REFUTE])
